@@ -27,11 +27,15 @@ Theorem c15_poll_exit_conditions : forall c s age, finished s = None ->
     if negb (age <? t_timeout c) || ((t_initial c <? age) && negb (Nat.eqb (List.length (spas s)) 0)) || found s then Some age else None.
 Proof. exact main_poll_exits. Qed.
 
-(* returns as soon as (the next poll after) a specifically requested spa has answered *)
+(* returns as soon as a specifically requested spa has answered: the first poll after the reply was consumed and the client's own handler
+   for LOCATING_DISCOVERED_SPA has returned (the library sets its flag behind that call: a client that stays suspended in its handler
+   delays the return by exactly that long - and by nothing else, c15_only_the_handler_delays) *)
 Theorem c15_returns_asap_when_found : forall c s r q, finished s = None -> queue s = r :: q -> ~ In (r_id r) (seen s) ->
   (f_addr c = true \/ f_id c = Some (r_id r)) -> (forall want, f_id c = Some want -> want = r_id r) ->
-  forall age, finished (step c (step c s Consume) (MainPoll age)) = Some age.
+  forall age, finished (step c (step c (step c s Consume) HandlerDone) (MainPoll age)) = Some age.
 Proof. exact found_when_requested. Qed.
+Theorem c15_only_the_handler_delays : forall c s, finished s = None -> found s = false -> found (step c s Consume) = false.
+Proof. exact not_found_before_handler_returns. Qed.
 
 (* in all cases within the discovery timeout: the first poll at or after it returns *)
 Theorem c15_returns_by_timeout : forall c s age, finished s = None -> t_timeout c <= age -> finished (step c s (MainPoll age)) = Some age.
